@@ -25,6 +25,7 @@ def install(I):
     b = "builtins."
     M[b + "len"] = m_len
     M[b + "range"] = m_range
+    M[b + "slice"] = lambda I, *a: slice(*a)          # subscripting with it goes through the same getitem as x[a:b]
     M[b + "int"] = IntType()
     M[b + "bool"] = m_bool
     M[b + "bytes"] = BytesType()
